@@ -1,12 +1,16 @@
 #!/usr/bin/env python3
 # Runs every seeded change against the check of its property (in a scratch worktree) and writes seeded/<name>/meta.json.
 import json,os,subprocess,sys,glob,re
+from concurrent.futures import ThreadPoolExecutor
 out={}
-for d in sorted(glob.glob('/verif/seeded/*/')):
+def one(d):
     name=os.path.basename(d.rstrip('/'))
     agent=json.load(open(d+'meta.agent.json')) if os.path.exists(d+'meta.agent.json') else {}
     prop=agent.get('property') or name[:3]
-    pre=json.load(open('/verif/seeded/round2_pre_tailoring.json')).get(name) if name.endswith('-r2') else None
+    pre=None
+    for rf in ('round2','round3'):
+        if name.endswith('-r'+rf[-1]):
+            pre=json.load(open('/verif/seeded/%s_pre_tailoring.json'%rf)).get(name)
     res=subprocess.run(['/verif/tools/tryseed.sh',d+'patch.diff',prop],capture_output=True,text=True).stdout
     fails=[l for l in res.splitlines() if l.startswith('FAIL') or l.startswith('UNDECIDED')]
     rules=sorted(set(re.findall(r'(C\d\d-R\d+)',' '.join(fails))))
@@ -30,5 +34,7 @@ for d in sorted(glob.glob('/verif/seeded/*/')):
         if "rule_added_after_seeing_this_seed" in old: meta["rule_added_after_seeing_this_seed"]=old["rule_added_after_seeing_this_seed"]
     json.dump(meta,open(d+'meta.json','w'),indent=1)
     out[name]=(detected,rules)
-    print(name,detected,rules)
-json.dump({k:{"detected":v[0],"rules":v[1]} for k,v in out.items()},open('/verif/seeded/matrix.json','w'),indent=1)
+    print(name,detected,rules,flush=True)
+with ThreadPoolExecutor(int(os.environ.get('SEED_JOBS','5'))) as ex:
+    list(ex.map(one,sorted(glob.glob('/verif/seeded/*/'))))
+json.dump({k:{"detected":v[0],"rules":v[1]} for k,v in sorted(out.items())},open('/verif/seeded/matrix.json','w'),indent=1)
